@@ -529,9 +529,11 @@ func (node *BetweenExprNode) TypeTransformBool(s SymbolTypes) (BoolNode, error) 
 
 func (node *BetweenExprNode) getTypedExpr() (BoolNode, error) {
 	if leftDatetime, ok := node.left.(DatetimeNode); ok {
-		lowerDatetime := node.lower.(DatetimeNode)
-		upperDatetime := node.upper.(DatetimeNode)
-		return &DatetimeBetweenExprNode{left: leftDatetime, lower: lowerDatetime, upper: upperDatetime}, nil
+		lowerDatetime, lowerOk := node.lower.(DatetimeNode)
+		upperDatetime, upperOk := node.upper.(DatetimeNode)
+		if lowerOk && upperOk {
+			return &DatetimeBetweenExprNode{left: leftDatetime, lower: lowerDatetime, upper: upperDatetime}, nil
+		}
 	}
 
 	if int64Nodes, ok := toInt64Nodes(node.left, node.lower, node.upper); ok {
